@@ -70,8 +70,9 @@ var (
 )
 
 type channel struct {
-	refs  atomic.Int32 // 2 by default (1 for user, 1 for connection)
-	freed atomic.Bool  // ensures public free is called once
+	refs      atomic.Int32 // 2 by default (1 for user, 1 for connection)
+	freed     atomic.Bool  // ensures public free is called once
+	connFreed atomic.Bool  // ensures the connection reference is released once
 
 	state atomic.Pointer[channelState]
 }
@@ -306,6 +307,13 @@ func (ch *channel) receive(msg pmpx.Message) status.Status {
 
 // free is called by the connection to free the channel.
 func (ch *channel) free() {
+	// The connection frees a channel when it receives or sends its close message,
+	// and again for every channel still in the map when the connection closes,
+	// these can overlap, release the connection reference only once.
+	if !ch.connFreed.CompareAndSwap(false, true) {
+		return
+	}
+
 	s := ch.state.Load()
 	if s == nil {
 		panic("free of freed channel")
